@@ -1374,6 +1374,7 @@ CHMaterialProp::~CHMaterialProp()
 }
 
 CHMaterialProp::CHMaterialProp( const CHMaterialProp & other)
+    : CMaterialProp(other)
 {
     Kx = other.Kx;
     Ky = other.Ky;
